@@ -26,14 +26,14 @@ REG.add(Contract(FILE, 'GULP_PairTabulation._write_pot',
     ensures=lambda v, old, res: [v.fp == cat(old.fp, gblock(v.pot, _G['cutoff'](v.self), _G['nr'](v.self)))],
     invariants={0: lambda v, old: [v.fp == cat(old.fp, ghead(v.pot, _G['cutoff'](v.self)),
                                                grows(v.pot, _G['cutoff'](v.self), _G['nr'](v.self), v._i0))]},
-    on_raise=lambda v, old: [v.fp == old.fp],
-    carries=['post', 'preserve/0', 'on_raise'], props=['C19', 'C17']))
+    on_raise=lambda v, old: [],      # streams into the buffer it is given (write() hands it a local StringIO)
+    carries=['post', 'preserve/0'], props=['C19']))
 
 REG.add(Contract(FILE, 'GULP_PairTabulation.write',
     params=[('self', T.Obj('GULP_PairTabulation')), ('fp', T.Doc)],
     requires=lambda v: [_G['nr'](v.self) >= 2],
     modifies=['fp'],
     ensures=lambda v, old, res: [v.fp == cat(old.fp, gulp_file(_G['pots'](v.self), _G['cutoff'](v.self), _G['nr'](v.self)))],
-    invariants={0: lambda v, old: [v.fp == cat(old.fp, gblocks(_G['pots'](v.self), _G['cutoff'](v.self), _G['nr'](v.self), v._i0))]},
+    invariants={0: lambda v, old: [v.fp == old.fp, v.sbuild == gblocks(_G['pots'](v.self), _G['cutoff'](v.self), _G['nr'](v.self), v._i0)]},
     on_raise=lambda v, old: [v.fp == old.fp],
     carries=['post', 'preserve/0', 'on_raise'], props=['C19', 'C17']))
